@@ -49,7 +49,9 @@ def execute(case, ctx):
     mdl = case["model"]; beta = mdl["beta"]
     ns = case["n"]; sub = case["sub"]
     taus = [f * beta for f in TAUF]
-    sel = "n %d %s tau %d %s" % (len(ns), " ".join(map(str, ns)), len(taus), " ".join(repr(t) for t in taus))
+    zs = [complex(0.37, 0.9), complex(-1.3, 0.25), complex(0.0, -2.1)]
+    sel = "n %d %s tau %d %s z %d %s" % (len(ns), " ".join(map(str, ns)), len(taus), " ".join(repr(t) for t in taus),
+                                        len(zs), " ".join("%r %r" % (z.real, z.imag) for z in zs))
     aa = complex(case["ab"][0], case["ab"][1]); bb = complex(case["ab"][2], case["ab"][3])
     subs = {0: "", 1: "sub 1", 2: "sub 2 %r %r %r %r" % (aa.real, aa.imag, bb.real, bb.imag), 3: "sub 3", 4: "sub 4"}[sub]
     q = []
@@ -86,6 +88,11 @@ def execute(case, ctx):
                 return fail("chi_{%d%d,%d%d}(n=%d) = %r, reference %r (|diff| %.3e > bound %.3e)" % (a, b, c, d, n, v, r, abs(v - r), bound), "mismatch-freq")
             if abs(r) > 1e-7:
                 nz = True
+        for z, v in zip(zs, [cx(v) for v in U["z"]]):
+            r = ref.chiAB_z(A, B, z)
+            bound = ref.chi_drop_bound(A, B, 0, z=z) + 1e-10 * (1 + abs(r))
+            if not abs(v - r) <= bound:
+                return fail("chi_{%d%d,%d%d}(z=%r) = %r, reference %r (|diff| %.3e > bound %.3e)" % (a, b, c, d, z, v, r, abs(v - r), bound), "mismatch-z")
         tb = ref.chi_tau_drop_bound(A, B)
         for tau, v in zip(taus, ut):
             r = ref.chiAB_tau(A, B, tau)
